@@ -1187,10 +1187,12 @@ pub fn generate(r: &mut Prng, cfg: &GenCfg) -> Case {
     let n_virt = g.virt_names.len();
     g.gen_header(n_virt);
     let mut items = g.block(0);
-    // make sure there is at least one row somewhere at top level
+    // make sure there is at least one row somewhere at top level (except now and then: a
+    // program without any row is legal - the constructor's call is then the only one)
     if !items
         .iter()
         .any(|i| matches!(i, Item::Row(..) | Item::Repeat(..)))
+        && !g.r.chance(100, 1000)
     {
         let es = g.gen_entries();
         g.row_id += 1;
